@@ -73,6 +73,11 @@ def units(tier, seed):
             us.append({"kind": "multi", "L": L, "mode": mode})
     for mode in ("list-FT", "bool-T"):
         us.append({"kind": "multisearch", "mode": mode, "n": 6, "max_dev": 2 if tier == "quick" else 3, "max_execs": 1500 if tier == "quick" else 20000})
+        for algo in ("gp", "rs", "hc", "1+1"):
+            for trk in ("given", "own"):
+                if (algo, trk) != ("gp", "given"):
+                    us.append({"kind": "multisearch", "mode": mode, "n": 5, "algo": algo, "tracker": trk, "max_dev": 2 if tier == "quick" else 3,
+                               "max_execs": 600 if tier == "quick" else 8000})
     for mode in ("max", "min", "multi"):
         for n in (1, 2, 3, 4) if tier == "quick" else (1, 2, 3, 4, 5):
             us.append({"kind": "helpers", "mode": mode, "n": n})
@@ -330,9 +335,19 @@ def run_multisearch(unit) -> UnitResult:
         problem = MultiObjectiveProblem(mins, ff)
         rec = Rec()
         tracker = MultiObjectiveProgressTracker(problem, SequentialEvaluator(), recorders=[rec])
-        alg = GeneticProgramming(problem, EvaluationBudget(unit["n"]), rep, random=src, tracker=tracker, population_size=3)
+        algo = unit.get("algo", "gp")
+        # (a tracker of the user's, or the one the algorithm builds itself for a non-single-objective problem)
+        kw = {"tracker": tracker} if unit.get("tracker", "given") == "given" else {}
+        if algo == "gp":
+            alg = GeneticProgramming(problem, EvaluationBudget(unit["n"]), rep, random=src, population_size=3, **kw)
+        elif algo == "rs":
+            alg = RandomSearch(problem, EvaluationBudget(unit["n"]), rep, random=src, **kw)
+        elif algo == "hc":
+            alg = HC(problem, EvaluationBudget(unit["n"]), rep, random=src, number_of_mutations=2, **kw)
+        else:
+            alg = OnePlusOne(problem, EvaluationBudget(unit["n"]), rep, random=src, **kw)
         res = alg.search()
-        return res, problem, log, tracker
+        return res, problem, log, alg.tracker
 
     def agg(v):
         if mode == "list-FT":
@@ -353,8 +368,8 @@ def run_multisearch(unit) -> UnitResult:
         w = {"unit": unit, "choices": list(ex.choices)}
         got = res.get_fitness(problem) if res is not None and res.has_fitness(problem) else None
         if got is None or abs(agg(got.fitness_components) - best) > 1e-9:
-            r.add_violation(Violation(PROP, "gp.search", "returned-not-best", {"algo": "gp", "multi": True}, w,
-                                      f"multi-objective GP ({mode}): returned {None if got is None else got.fitness_components}, "
+            r.add_violation(Violation(PROP, f"{unit.get('algo', 'gp')}.search", "returned-not-best", {"algo": unit.get("algo", "gp"), "multi": True}, w,
+                                      f"multi-objective {unit.get('algo', 'gp')} ({mode}, tracker {unit.get('tracker', 'given')}): returned {None if got is None else got.fitness_components}, "
                                       f"best aggregate {best} among {log}"))
         for b in tracker.get_best_individuals():
             if abs(agg(b.get_fitness(problem).fitness_components) - best) > 1e-9:
